@@ -36,7 +36,12 @@ pub fn meta(tier: Tier) -> CheckMeta {
                for equal content under different types. distinct = hash(round config); non-trivial = round in \
                which an entry was dropped to zero handles and interned again (revival) at least once.",
         assumptions: vec!["interleavings are sampled; the monitor itself is sound (no false alarm by construction)".into()],
-        parts: vec![PartSpec { name: "native", nshards: 8, budget_s: tier.pick(300, 2400), env: vec![], program: None, prepare: None, sanitizer: None }],
+        parts: {
+            let mut parts = vec![PartSpec { name: "native", nshards: 8, budget_s: tier.pick(300, 2400), env: vec![], program: None, prepare: None, sanitizer: None }];
+            if tier == Tier::Thorough { parts.push(crate::sup::sanitizer_part("miri", 8, tier.pick(900, 2400))); }
+            if tier == Tier::Thorough { parts.push(crate::sup::sanitizer_part("tsan", 8, 2400)); }
+            parts
+        },
         must_be_nonzero: vec![("revivals", "no value was dropped to zero handles and interned again"), ("hook_hits_intern_miss", "read-miss window never reached")],
     }
 }
